@@ -6,7 +6,9 @@
                                           | x<name>:<k> other client removes handle k
                                           | p<name> purge | w write side breaks
                                           | t idle timeout | r read error
-   outs    one field per reply that reached the client (greeting first), then one field
+                                          | n drop the connection (if open) and connect again
+   outs    one field per reply that reached the client (greeting first; N marks a new
+           connection), then one field
            S<namehex>=<k>:<size>.<k>:<size>... per mailbox named in init/deliveries.
    reply   <+|-|?>/<toks>/<body>   toks: - | t,t,..  (numbers, h<k> handles)
            body: - | L<n:v;..> | U<n:hk;..> | W<hex> | C | F | X<hex>
@@ -59,17 +61,22 @@ let split2 (s : string) : string * string =
   | None -> (s, "")
   | Some i -> (String.sub s 0 i, String.sub s (i + 1) (String.length s - i - 1))
 
-let parse_events (f : string) : bevent list =
+(* 'n': the client drops the connection (if it is still open) and connects again; the
+   sessions of one history share nothing but the store *)
+type pev = Ev of bevent | NewConn
+
+let parse_events (f : string) : pev list =
   if f = "-" then [] else
   List.map (fun ev ->
     let rest = String.sub ev 1 (String.length ev - 1) in
     match ev.[0] with
-    | 'c' -> BBytes (fstr rest)
-    | 'd' -> let (n, s) = split2 rest in BOther (EDeliver (fstr n, fstr s))
-    | 'x' -> let (n, k) = split2 rest in BOther (ERemove (fstr n, [n_of_int (int_of_string k)]))
-    | 'p' -> BOther (EPurge (fstr rest))
-    | 'w' -> BOther EWriteBreak
-    | 't' | 'r' -> BOther EReadErr
+    | 'c' -> Ev (BBytes (fstr rest))
+    | 'd' -> let (n, s) = split2 rest in Ev (BOther (EDeliver (fstr n, fstr s)))
+    | 'x' -> let (n, k) = split2 rest in Ev (BOther (ERemove (fstr n, [n_of_int (int_of_string k)])))
+    | 'p' -> Ev (BOther (EPurge (fstr rest)))
+    | 'w' -> Ev (BOther EWriteBreak)
+    | 't' | 'r' -> Ev (BOther EReadErr)
+    | 'n' -> NewConn
     | _ -> failwith ("bad event " ^ ev)) (split ',' f)
 
 let box_names (init : string) (events : string) : string list =
@@ -154,49 +161,75 @@ let () =
           | None -> (fl, 0) in
         let fl' = if flname = "file" then File else Mem in
         let st0 = parse_init cap init in
-        let bes = parse_events events in
-        (* byte chunks -> lines (Coq: feed), cap evictions -> explicit removals *)
-        let (_, _, revs) =
-          List.fold_left (fun (w, pend, acc) be ->
-            let es, pend' = match be with
-              | BBytes b -> let (ls, p) = feed (frev pend) b in (List.map (fun l -> ELine l) ls, p)
-              | BOther e -> ([e], pend) in
-            List.fold_left (fun (w, pend, acc) e ->
-              let w = wstep fl' w e in
-              match e with
-              | EDeliver (name, _) when cap > 0 ->
-                  let (_, rm) = evictions cap w.w_store name in
-                  let w = List.fold_left (wstep fl') w rm in
-                  (w, pend, List.rev_append rm (e :: acc))
-              | _ -> (w, pend, e :: acc)) (w, pend', acc) es)
-            (init_world st0, [], []) bes in
-        let evs = List.rev revs in
-        let w = run fl' (init_world st0) (evs @ [EEof]) in
+        let pevs = parse_events events in
+        (* byte chunks -> lines (Coq: feed), cap evictions -> explicit removals,
+           'n' -> a new segment run from the store the previous session left *)
+        let (w, _, acc, segs_rev) =
+          List.fold_left (fun (w, pend, acc, segs) pe ->
+            match pe with
+            | NewConn ->
+                let w' = wstep fl' w EEof in
+                (init_world w'.w_store, [], [], List.rev acc :: segs)
+            | Ev be ->
+              let es, pend' = match be with
+                | BBytes b -> let (ls, p) = feed (frev pend) b in (List.map (fun l -> ELine l) ls, p)
+                | BOther e -> ([e], pend) in
+              let (w, acc) = List.fold_left (fun (w, acc) e ->
+                let w = wstep fl' w e in
+                match e with
+                | EDeliver (name, _) when cap > 0 ->
+                    let (_, rm) = evictions cap w.w_store name in
+                    let w = List.fold_left (wstep fl') w rm in
+                    (w, List.rev_append rm (e :: acc))
+                | _ -> (w, e :: acc)) (w, acc) es in
+              (w, pend', acc, segs))
+            (init_world st0, [], [], []) pevs in
+        ignore w;
+        let segs = List.rev (List.rev acc :: segs_rev) in
+        (* run every segment with the extracted model *)
+        let (_, runs_rev) = List.fold_left (fun (st, rs) evs ->
+            let w = run fl' (init_world st) (evs @ [EEof]) in
+            (w.w_store, (st, evs, w) :: rs)) (st0, []) segs in
+        let runs = List.rev runs_rev in
+        let last_store = (match runs_rev with (_, _, w) :: _ -> w.w_store | [] -> st0) in
         let names = box_names init events in
         let model_outs =
-          List.map field_of_reply w.w_out @
-          List.map (fun nm -> field_of_dump nm (dump_box w.w_store (fstr nm))) names in
-        (* the oracle on the implementation's observation *)
+          String.split_on_char ' ' (String.concat " N " (List.map (fun (_, _, w) -> String.concat " " (List.map field_of_reply w.w_out)) runs)) @
+          List.map (fun nm -> field_of_dump nm (dump_box last_store (fstr nm))) names in
+        (* the oracle on the implementation's observation, connection by connection *)
         let verdict =
           match outs with
           | "PANIC" :: _ -> "fail:server-panic"
+          | "WEDGED" :: _ | "WEDGED-AT-END" :: _ -> "fail:server-wedged"
           | _ ->
               let rfs = List.filter (fun f -> f <> "" && f.[0] <> 'S') outs in
               let dfs = List.filter (fun f -> f <> "" && f.[0] = 'S') outs in
-              let rs = List.map reply_of_field rfs in
+              (* split the reply fields at the connection markers *)
+              let groups =
+                let rec go cur acc = function
+                  | [] -> List.rev (List.rev cur :: acc)
+                  | "N" :: t -> go [] (List.rev cur :: acc) t
+                  | f :: t -> go (f :: cur) acc t in
+                go [] [] rfs in
               let ds = List.map dump_of_field dfs in
-              if List.mem None rs then "fail:unparsable-reply"
+              if List.length groups <> List.length runs then "fail:reply-count"
               else if List.mem None ds || List.length ds <> List.length names then "fail:unparsable-store-dump"
-              else
-                let rs = List.map (function Some r -> r | None -> assert false) rs in
+              else begin
                 let ds = List.map (function Some d -> d | None -> assert false) ds in
-                match oracle fl' st0 evs rs ds with
-                | None -> "ok"
-                | Some why -> "fail:" ^ reason_text why in
+                let nruns = List.length runs in
+                let rec check i gs rs =
+                  match gs, rs with
+                  | g :: gs', (st, evs, _) :: rs' ->
+                      let parsed = List.map reply_of_field g in
+                      if List.mem None parsed then "fail:unparsable-reply"
+                      else begin
+                        let parsed = List.map (function Some r -> r | None -> assert false) parsed in
+                        match oracle fl' st evs parsed (if i = nruns - 1 then ds else []) with
+                        | None -> check (i + 1) gs' rs'
+                        | Some why -> "fail:" ^ reason_text why
+                      end
+                  | _, _ -> "ok" in
+                check 0 groups runs
+              end in
         Mlutil.print_model model_outs verdict
-    | "wire", [src; k] ->
-        (* POP3 wire round trip on its own: RETR body, TOP k body *)
-        let s = fstr src in
-        let k' = n_of_int (int_of_string k) in
-        Mlutil.print_model [field_of_str (pop3_send s); field_of_str (pop3_send_top s k')] "ok"
     | _ -> Mlutil.print_model ["UNKNOWN-KIND"] "ok")
